@@ -55,6 +55,13 @@ func quickSeeds() []string {
 func c01State(w *wctx, p *position.Position, r *refchess.Pos) {
 	run := w.run
 	want := eng.TuplesOfRef(r.LegalMoves())
+	if !r.InCheck(r.White) {
+		// "reached by play" includes what a search does on the way: a null move made and taken back before the moves of
+		// this position are generated (first thing at the node: the undo-stack slot still holds what a sibling left there)
+		if msg, pan := vl.Guard(func() { p.DoNullMove(); p.UndoNullMove() }); pan {
+			run.Violate("nullmove-panic", "DoNullMove/UndoNullMove panicked: "+msg, w.replayOf(r, nil))
+		}
+	}
 	legal := w.mg.GenerateLegalMoves(p, movegen.GenAll)
 	got := eng.TuplesOfSlice(legal)
 	if r.InCheck(r.White) {
